@@ -47,10 +47,14 @@ SetStatus(n, a) ==
     /\ users' = { IF u[1] = n THEN <<n, u[2], a>> ELSE u : u \in users }
     /\ UNCHANGED <<toks, now, sess>>
 CanDeleteUser(c, n) == sess[c] = Root /\ Exists(n) /\ n # Root
+(* a session belongs to the user that logged in, not to the NAME: the connections of a deleted user stay "authenticated as *)
+(* somebody who is gone" (every request that needs the user is refused), also when the name is given to a new user later     *)
+Gone == "<deleted user>"
 DeleteUser(n) ==
     /\ users' = { u \in users : u[1] # n }
     /\ toks' = { k \in toks : k[2] # n }
-    /\ UNCHANGED <<now, sess>>
+    /\ sess' = [c \in DOMAIN sess |-> IF sess[c] = n THEN Gone ELSE sess[c]]
+    /\ UNCHANGED now
 
 CanCreateToken(c) == Authenticated(c) /\ Exists(sess[c])
 CreateToken(c, t, ttl) ==
